@@ -176,7 +176,7 @@ def colRefString (c : ColRef) : Bytes := if c.qual.isEmpty then c.name else c.qu
 /-- one projected value of `projectColumns` -/
 def projectItem (item : SelItem) (fields : List Field) (row : Row) : X Val :=
   match item with
-  | .star => .panic "projectColumns: asterisk after the first position"
+  | .star => .err .nothingToEvaluate   -- an asterisk is only special in the first position
   | .avg c => do
     let idx ← findColumn c fields
     match row[idx]? with
@@ -280,7 +280,7 @@ def aggregateRows (sl : List DerivedCol) (groupBy : List ColRef) (rows : List Ro
         | .count _ => pure (Val.int 0)
         | .avg _ => pure (Val.int 0)
         | .expr c => evaluate c [] []
-        | .star => X.panic "emptyAggregateRow: asterisk") sl
+        | .star => X.err .nothingToEvaluate) sl
       pure [r])
   else do
     let idxs ← mapX (fun g => match groupIdx sl g with | some i => pure i | none => X.err .groupByNotSelected) groupBy
